@@ -179,7 +179,7 @@ func (c *Ctx) Finish(level string, cov Coverage) int {
 		"wall_s":      time.Since(c.Start).Seconds(),
 		"violations":  newCount,
 	}
-	if c.Replay == "" {
+	if c.Replay == "" && os.Getenv("VERIF_NOEVIDENCE") == "" {
 		b, _ := json.MarshalIndent(ev, "", " ")
 		os.MkdirAll(filepath.Join(c.VerifDir, "evidence"), 0o755)
 		if err := os.WriteFile(filepath.Join(c.VerifDir, "evidence", c.ID+".json"), b, 0o644); err != nil {
